@@ -6,8 +6,9 @@ import os
 import re
 
 from sim.orch import CheckBase, Outcome
-from sim import dfswork
+from sim import dfswork, fluxwork
 from sim.models import gz
+from sim.models import dfsdisc as dd
 
 REPO = os.environ.get('VERIF_REPO', '/repo')
 FLUX_BASES = ['wdfs-dd.hfe.gz', 'acorn-dfs-ss-80t-manyfiles.hfe.gz', 'wdfs-dd_HXCMFM_whatis.mfm.gz']
@@ -209,12 +210,18 @@ class C07(CheckBase):
         return g
 
     def gen_case(self, rng, tier, index):
-        src = rng.weighted([(10, 'generated'), (5, 'flux'), (3, 'random')])
+        src = rng.weighted([(10, 'generated'), (4, 'flux'), (4, 'genflux'), (3, 'random')])
         image = {}
         if src == 'generated':
             image = dfswork.gen_image(rng)
             ext = image['ext']
             size = None
+        elif src == 'genflux':
+            fc, dmg = fluxwork.gen_hostile_flux(rng, sides=rng.weighted([(4, 1), (1, 2)]))
+            surfaces = [dd.gen_surface(rng, variant='acorn', geom=(fc['tracks'], fc['spt']), img_id=8, side=sd).to_json() for sd in range(fc['sides'])]
+            ext = 'mfm' if fc['container'] == 'mfm' else 'hfe'
+            image = {'genflux': fc, 'surfaces': surfaces, 'damage': dmg, 'ext': ext}
+            size = 400000
         elif src == 'flux':
             base = rng.choice(FLUX_BASES)
             ext = 'hfe' if '.hfe' in base else 'mfm'
@@ -228,7 +235,7 @@ class C07(CheckBase):
             size = len(image['random'])
         if size is None:
             size = {'ssd': 102400, 'sdd': 184320, 'dsd': 204800, 'ddd': 368640, 'mmb': 8192 + 204800}.get(ext, 100000)
-        ops = self.gen_ops(rng, ext, size) if src != 'random' or rng.chance(0.3) else []
+        ops = self.gen_ops(rng, ext, size) if (src not in ('random', 'genflux') or rng.chance(0.3)) else []
         gzmode = rng.weighted([(7, None), (2, 'valid'), (1, 'damaged')])
         case = {'image': image, 'ops': ops, 'gz': gzmode, 'gz_ops': self.gen_ops(rng, 'gz', 2000)[:2] if gzmode == 'damaged' else [],
                 'cmd': self.gen_command(rng, image), 'globals': self.gen_globals(rng),
@@ -243,6 +250,8 @@ class C07(CheckBase):
         image = case['image']
         if 'random' in image:
             data = image['random']
+        elif 'genflux' in image:
+            data, _ = fluxwork.build_from_json(image['genflux'], image['surfaces'], image.get('damage'))
         elif 'flux_base' in image:
             data = flux_base(image['flux_base'])
         else:
@@ -298,7 +307,7 @@ class C07(CheckBase):
         image = case['image']
         ext = image['ext']
         kinds = ','.join(sorted(set(o['k'] for o in case['ops']))) or '-'
-        src = 'random' if 'random' in image else ('flux' if 'flux_base' in image else 'generated')
+        src = 'random' if 'random' in image else ('flux' if 'flux_base' in image else ('genflux' if 'genflux' in image else 'generated'))
         out.sig(case['build'], ext, case['gz'] or '-', src, kinds, case['cmd'][0], fk if delivered else '-', r.exit_class(), bool(r['stderr']), r['log_hash'])
         for o in case['ops']:
             out.probe('damage:' + o['k'])
